@@ -180,17 +180,38 @@ def cso(s):
     return 'None' if s is None else f"(Some {cs(str(s))})"
 
 
+def ctext(s):
+    """Coq string term for the TEXT of a hardcoded field / dummy.  The model's specification text is a Coq `string` (one ascii = one code
+    point 0..255, Spec.str_cps), so Latin-1 text is carried exactly.  A character outside the Basic Multilingual Plane is not encodable
+    in windows-1252; what the format prescribes for it is the single replacement byte '?', exactly as for the character '?' itself
+    (Writer.encode_ansi maps every unencodable code point to 63), so the model is given '?' in its place.  Anything else is refused."""
+    if s is None:
+        return 'None'
+    s = str(s)
+    if all(32 <= ord(c) < 127 for c in s):
+        return f"(Some {cs(s)})"
+    parts = []
+    for c in s:
+        o = ord(c)
+        if o > 0xFFFF:
+            o = 63
+        if o > 255:
+            raise ValueError(f"hardcoded text the model cannot carry: {s!r}")
+        parts.append(f'(String (Ascii.ascii_of_N {o}) ')
+    return '(Some ' + ''.join(parts) + 'EmptyString' + ')' * len(parts) + ')'
+
+
 def coq_instr(i):
     t, a = i['tag'], i.get('attrs', {})
     g = lambda k: cso(a.get(k))
     if t == 'field':
-        return f"RField {g('name')} {g('type')} {g('length')} {g('padded')} {g('optional')} {cso(i.get('text'))}"
+        return f"RField {g('name')} {g('type')} {g('length')} {g('padded')} {g('optional')} {ctext(i.get('text'))}"
     if t == 'array':
         return f"RArray {g('name')} {g('type')} {g('length')} {g('optional')} {g('delimited')} {g('trailing-delimiter')}"
     if t == 'length':
         return f"RLength {g('name')} {g('type')} {g('offset')} {g('optional')}"
     if t == 'dummy':
-        return f"RDummy {g('type')} {cso(i.get('text'))}"
+        return f"RDummy {g('type')} {ctext(i.get('text'))}"
     if t == 'break':
         return "RBreak"
     if t == 'chunked':
